@@ -149,6 +149,12 @@ class ESSearch(ABC):
                 non_box_cons,
             )
 
+            if u_new.shape[0] == 0:
+                # No feasible candidate survived the filter
+                if i == 0:
+                    return np.empty((0, nvars)), np.empty((0,))
+                break
+
             if self.search_acq_fcn[0] == "acq_LCB":
                 z_new, fmu, fs = acq_fcn_lcb(
                     u_new, func_logger.func_count, gp, self.search_acq_fcn[1]
